@@ -306,6 +306,8 @@ pub fn run(tier: &str, seed: u64, out: &Path) -> i32 {
         crate::missed_corr::cases_c02(&mut o, &mut r, tier == "thorough");
         crate::vertical_corr::cases(&mut o, &mut r, tier == "thorough");
         crate::budgets_corr::cases_c02(&mut o, &mut r, tier == "thorough");
+        crate::braces_corr::cases(&mut o, &mut r, tier == "thorough");
+        crate::braces_corr::probes(&mut o);
     }
     o.finish(out, jobs_n())
 }
